@@ -45,8 +45,17 @@ def run(chk):
              "which are then extended past their top vertex: crossing edges and vertices outside the input bounds in the solution)")
     chk.rule("FLAG.sticky", "has_open_paths_ is only switched on where paths are added and off in Clear(): with the flag off while open paths are loaded, open "
              "edges alter winding counts and are joined into closed rings (orientation no longer matches nesting; Union of the solution is not idempotent)")
+    chk.rule("ORIGIN.convex", "GetSegmentIntersectPt (default and CLIPPER2_HI_PRECISION variants): whatever is subtracted from a coordinate before the conversion to "
+             "double is itself a coordinate, a min / max choice or the mean of two - the differences stay small, so the computed crossing stays within rounding of the edges")
     chk.rule("REMOVAL.restart", "CleanCollinear restarts its lap (startOp = op2) on every path after a removal")
     chk.rule("SIBLING.64-D", "BuildPathD / BuildPathsD / BuildTreeD are their 64-bit siblings modulo renames and de-scaling")
+    from ..engines import e14_poly as _e14o
+    for _cfg in ("base", "hi"):
+        # "every vertex is within 2 units of an input edge": the crossing point is computed from differences that stay small
+        _dbo = AstDB(_cfg)
+        if _e14o.rule_origin_convex(_dbo, chk, _cfg) < 1:
+            from ..extract import AnalysisBroken as _ABo
+            raise _ABo("ORIGIN.convex: GetSegmentIntersectPt not found (configuration %s)" % _cfg)
     for cfg in cfgs:
         db = AstDB(cfg)
         e10.rule_precede(db, chk, cfg)
